@@ -3,14 +3,14 @@
 (* matching and other events before / at / after repetitions, all counts, stop.          *)
 EXTENDS Integers, Sequences, TLC, Json
 CONSTANTS MaxNow, MaxLevel, MinStop
-VARIABLES c1, c2, s1, s2, now, sent1, sent2, got, stopped, hist
+VARIABLES c1, c2, s1, s2, now, free, sent1, sent2, got, stopped, hist
 R == INSTANCE Repeat
-vars == <<c1, c2, s1, s2, now, sent1, sent2, got, stopped, hist>>
-View == <<c1, c2, s1, s2, now, sent1, sent2, got, stopped>>
+vars == <<c1, c2, s1, s2, now, free, sent1, sent2, got, stopped, hist>>
+View == <<c1, c2, s1, s2, now, free, sent1, sent2, got, stopped>>
 NONE == R!NONE
 Counts == {NONE, 0, 1, 2}
 Init == /\ c1 \in [interval : {2, 3}, count : Counts] /\ c2 \in [interval : {1, 2}, count : Counts]
-        /\ s1 = R!Init0 /\ s2 = R!Init0 /\ now = 0
+        /\ s1 = R!Init0 /\ s2 = R!Init0 /\ now = 0 /\ free = 0
         /\ sent1 = NONE /\ sent2 = NONE     \* time of the last event sent by R1 / R2
         /\ got = <<>>                        \* what the probe received last
         /\ stopped = FALSE /\ hist = <<>>
@@ -26,22 +26,29 @@ Ext == /\ ~stopped
                          /\ s1' = R!Recv(c1, s1, now, d) /\ sent1' = now
                          /\ Into2([tag |-> d.tag, val |-> d.val, x |-> d.x, src |-> 1])
                     ELSE UNCHANGED <<s1, s2, sent1, sent2, got>>      \* other types are ignored
-       /\ UNCHANGED <<c1, c2, now, stopped>>
-Tick1 == /\ ~stopped /\ s1.due = now
+       /\ UNCHANGED <<c1, c2, now, free, stopped>>
+Tick1 == /\ ~stopped /\ s1.due # NONE /\ s1.due <= now
          /\ s1' = R!Tick(c1, s1, now) /\ sent1' = now
          /\ Into2([tag |-> s1.last.tag, val |-> s1.last.val, x |-> s1.last.x, src |-> 1])
-         /\ UNCHANGED <<c1, c2, now, stopped, hist>>
-Tick2 == /\ ~stopped /\ s2.due = now
+         /\ UNCHANGED <<c1, c2, now, free, stopped, hist>>
+Tick2 == /\ ~stopped /\ s2.due # NONE /\ s2.due <= now
          /\ s2' = R!Tick(c2, s2, now) /\ sent2' = now
          /\ got' = R!Sent(2, s2.last, s2.n + 1)
-         /\ UNCHANGED <<c1, c2, s1, now, sent1, stopped, hist>>
+         /\ UNCHANGED <<c1, c2, s1, now, free, sent1, stopped, hist>>
 Advance == /\ now < MaxNow
            /\ (stopped \/ ((s1.due = NONE \/ s1.due > now) /\ (s2.due = NONE \/ s2.due > now)))
-           /\ now' = now + 1 /\ UNCHANGED <<c1, c2, s1, s2, sent1, sent2, got, stopped, hist>>
+           /\ now' = now + 1 /\ UNCHANGED <<c1, c2, s1, s2, free, sent1, sent2, got, stopped, hist>>
+(* the event loop is kept busy for k ticks by something else: nothing runs meanwhile, a *)
+(* repetition that became due is sent as soon as the loop is free again                  *)
+Stall == /\ ~stopped /\ now + 2 <= MaxNow
+         /\ ((s1.due = NONE \/ s1.due > now) /\ (s2.due = NONE \/ s2.due > now))
+         /\ \E k \in {2, 3} : /\ now' = now + k /\ free' = now + k
+                               /\ hist' = Append(hist, [op |-> "stall", t |-> now, m |-> FALSE, tag |-> k])
+         /\ UNCHANGED <<c1, c2, s1, s2, sent1, sent2, got, stopped>>
 Stop == /\ ~stopped /\ now >= MinStop /\ stopped' = TRUE
         /\ hist' = Append(hist, [op |-> "stop", t |-> now, m |-> FALSE, tag |-> 0])
-        /\ UNCHANGED <<c1, c2, s1, s2, now, sent1, sent2, got>>
-Next == Ext \/ Tick1 \/ Tick2 \/ Advance \/ Stop
+        /\ UNCHANGED <<c1, c2, s1, s2, now, free, sent1, sent2, got>>
+Next == Ext \/ Tick1 \/ Tick2 \/ Advance \/ Stall \/ Stop
 Spec == Init /\ [][Next]_vars
 
 CountBound == R!CountBound(c1, s1) /\ R!CountBound(c2, s2)
@@ -49,7 +56,8 @@ OutputIsLastRepeat == R!OutputIsLastRepeat(s1) /\ R!OutputIsLastRepeat(s2)
 (* pace: the next repetition is exactly one interval after the last event sent *)
 Pace == /\ (s1.due # NONE => s1.due = sent1 + c1.interval)
         /\ (s2.due # NONE => s2.due = sent2 + c2.interval)
-        /\ (~stopped => (s1.due = NONE \/ s1.due >= now) /\ (s2.due = NONE \/ s2.due >= now))
+        /\ (~stopped => (s1.due = NONE \/ s1.due >= now \/ now = free)
+                         /\ (s2.due = NONE \/ s2.due >= now \/ now = free))
 (* a newer event restarts the numbering; the probe always sees the latest data *)
 RestartOnNew == [][(s1'.last # s1.last) => s1'.n = 0]_vars
 ProbeSeesLatest == got # <<>> => (got.tag = s2.last.tag /\ got.rep = s2.n /\ got.src = 2 /\ got.orig = 1)
